@@ -773,7 +773,7 @@ API2_LENS = [0, 1, 7, 8, 9, 16, 17, 33, 100]
 SHAPES = "iosxp"
 SUPERS = {"ascii": ["utf8", "latin1"], "utf8": ["wtf8"]}
 SUBS = {"utf8": ["ascii"], "latin1": ["ascii"], "wtf8": ["utf8"]}
-API2_ANY = ("bytes", "reint", "eq", "extt", "send")
+API2_ANY = ("bytes", "reint", "eq", "extt", "send", "views")
 API2_SLICE = ("cmp", "borrow", "debug", "from", "exts")
 API2_UTF8 = ("display", "tostring", "fromstr", "wstr", "format", "extc")
 API2_BYTES = ("iowrite", "read", "extb", "extu8", "sink")
@@ -956,6 +956,13 @@ def api2_expected(line):
             (_, a), (_, b) = T(0), T(1)
             e = int(a == b)
             out = "eq=%d ne=%d hasheq=%d hslice=1" % (e, 1 - e, e)
+        elif op == "views":
+            b = raw(0, fmt)
+            if any(x >= 0x80 for x in b):
+                return "bad-case"      # the expected count below is for contents every cut of which is valid
+            n = len(b)
+            cnt = 2 * sum(1 for off in range(n + 1) for ln in (0, 1, 7, 8, 9, 12, 16, 20, n) if off + ln <= n)
+            out = "views=%d pairs=%d bad=-" % (cnt, cnt * cnt)
         elif op == "extt":
             sh, acc = T(0)
             for k in range(1, len(args)):
@@ -1159,6 +1166,12 @@ def api2_cases(tier, rng):
     def add(op, fmt, atom, *args):
         cases.append(("tendril2\t%s\t%s\t%s\t%s" % (op, fmt, atom, "\t".join(args)), "api2-" + op))
 
+    # every pair of views of one buffer (equal length at different offsets, equal and different contents)
+    for fmt in FORMATS:
+        for ci, b in enumerate([bytes(97 + ((i * 7 + i // 5) % 26) for i in range(48)), b"0123456789ab" * 4, b"a" * 40,
+                                b"id=0123456789ab,id=0123456789ac,id=0123456789ab", b"", b"x", b"12345678", b"123456789"]):
+            for atom in ("NA" if thorough else "NA"[ci % 2]):
+                add("views", fmt, atom, opnd("r", b))
     for fmt in FORMATS:
         conts = api2_contents(fmt)
         for ci, b in enumerate(conts):
